@@ -99,8 +99,15 @@ def run(ctx):
     for q in (M2 + "mem2_scipy_root_finder", M2 + "mem2_newton"):
         f = p.get_function(q)
         it = Interp(p)
-        stores = [n for n in own_walk(f.node) if isinstance(n, ast.Assign) and isinstance(n.targets[0], ast.Subscript)
-                  and ast.unparse(n.targets[0].value) == "twiddle_factors"]
+        rowst = {}
+        for n in own_walk(f.node):
+            if isinstance(n, ast.Assign) and isinstance(n.targets[0], ast.Subscript) and isinstance(n.targets[0].value, ast.Name):
+                ix = n.targets[0].slice
+                first_ = ix.elts[0] if isinstance(ix, ast.Tuple) else ix
+                if isinstance(first_, ast.Constant) and isinstance(first_.value, int):
+                    rowst.setdefault(n.targets[0].value.id, []).append(n)
+        tables = [v for v in rowst.values() if len(v) == 4]
+        stores = tables[0] if len(tables) == 1 else []
         got = {}
         from ..interp import Env
         env = Env(it, f, f.module)
@@ -116,8 +123,10 @@ def run(ctx):
     # moment vector order
     for q, fn_name in ((M2 + "mem2_scipy_root_finder", "np.array"), (M2 + "_mem2_newton_point", "np.array")):
         f = p.get_function(q)
-        arrs = [n for n in own_walk(f.node) if isinstance(n, ast.Assign) and ast.unparse(n.targets[0]) == "moments"
-                and isinstance(n.value, ast.Call) and ast.unparse(n.value.func) == "np.array"]
+        arrs = [n for n in own_walk(f.node) if isinstance(n, ast.Assign) and isinstance(n.targets[0], ast.Name)
+                and isinstance(n.value, ast.Call) and ast.unparse(n.value.func) == "np.array" and n.value.args
+                and isinstance(n.value.args[0], ast.List) and len(n.value.args[0].elts) == 4
+                and all(isinstance(e, ast.Subscript) for e in n.value.args[0].elts)]
         ok = False
         if len(arrs) == 1 and arrs[0].value.args and isinstance(arrs[0].value.args[0], ast.List):
             names = []
@@ -200,32 +209,47 @@ def run(ctx):
 
     # ---- R06.3 stopping rule
     loops = [L for L in its.loops if L.func == fs.qualname]
-    outer = [L for L in loops if "convergence" in L.carried]
+    def _cf(L):
+        """name of the carried residual vector: its value before the loop is an evaluation of the constraint function"""
+        c = [nm for nm, v in L.carried.items() if v[1] is not None and fname(T.to_term(v[0])) == "constraints"]
+        return c[0] if len(c) == 1 else None
+    outer = [L for L in loops if _cf(L) is not None and fname(L.iter) == "range"]
+    outer = [L for L in outer if not any(L is not M and M.loc == L.loc for M in outer)][:1] if outer else []
     if len(outer) != 1:
         ctx.unsure("R06.3", "mem2_newton_solver[stopping rule]", "iteration loop not found", fs.loc())
     else:
         L = outer[0]
-        cf = L.carried.get("current_func", (None, None, None))[1]
+        cf_name = _cf(L)
+        cf = L.carried[cf_name][1]
         want = CMP("lt", op("norm", cf), sp.Rational(1, 100)) if cf is not None else None
         ctx.expect(want is not None and want in L.break_conds, "R06.3", "mem2_newton_solver[stopping rule]",
                    "the iteration stops as converged only when ||F|| < atol (default 0.01)", L.loc, derived=str([T.show(c, 80) for c in L.break_conds]))
         # convergence = True is assigned only under that test
-        trues = [n for n in ast.walk(fs.node) if isinstance(n, ast.Assign) and ast.unparse(n.targets[0]) == "convergence"
+        flags = {nm for nm, v in L.carried.items() if v[0] is False or T.to_term(v[0]) == T.FALSE_T}
+        trues = [n for n in ast.walk(fs.node) if isinstance(n, ast.Assign) and isinstance(n.targets[0], ast.Name) and n.targets[0].id in flags
                  and isinstance(n.value, ast.Constant) and n.value.value is True]
         ok = len(trues) == 1
         if ok:
+            from .fc import substitute_defs, mentions_through_defs
             anc = [n for n in ast.walk(fs.node) if isinstance(n, ast.If) and trues[0] in [x for b in n.body for x in ast.walk(b)]]
-            ok = any(ast.unparse(a.test) == "magnitude_cur_func_eval < atol" for a in anc)
+
+            def norm_test(t):
+                if not (isinstance(t, ast.Compare) and len(t.ops) == 1 and isinstance(t.ops[0], ast.Lt)):
+                    return False
+                left = substitute_defs(fs.node, t.left, {cf_name})
+                return ast.unparse(left) == f"np.linalg.norm({cf_name})" and mentions_through_defs(
+                    fs.node, t.comparators[0], lambda n: isinstance(n, ast.Constant) and n.value == "atol")
+            ok = any(norm_test(a.test) for a in anc)
         ctx.expect(ok, "R06.3", "mem2_newton_solver[convergence flag]", "convergence is set only under the norm test", fs.loc())
     its_c = Interp(p, opaque={M2 + "moment_constraints": "constraints", M2 + "mem2_jacobian": "jacobian",
                               M2 + "mem2_directional_distribution": "dist", M2 + "solve_newton_update": "solve", EST + "mem.numba_mem": "mem"})
     cfg = P("config")
     its_c.nonnull.add(cfg)
     its_c.call_function(fs, [mom, guess, dth, tw, cfg, False], {}, None)
-    lc = [L for L in its_c.loops if L.func == fs.qualname and "convergence" in L.carried]
+    lc = [L for L in its_c.loops if L.func == fs.qualname and _cf(L) is not None and fname(L.iter) == "range"]
     okcfg = False
     if lc:
-        cf = lc[0].carried.get("current_func", (None, None, None))[1]
+        cf = lc[0].carried[_cf(lc[0])][1]
         okcfg = CMP("lt", op("norm", cf), op("item", cfg, Str("atol"))) in lc[0].break_conds
         okcfg = okcfg and lc[0].iter == op("range", sp.Integer(0), op("item", cfg, Str("max_iter")))
     ctx.expect(okcfg, "R06.3", "mem2_newton_solver[config keys]", "atol and max_iter are read from the keys 'atol' and 'max_iter'", fs.loc())
@@ -251,13 +275,20 @@ def run(ctx):
     from ..interp import Env
     env = Env(it4, fn_, fn_.module)
     env.vars["directions_radians"] = th
-    okinc = False
-    for name in ("direction_increment_downward_difference", "direction_increment_upward_difference", "direction_increment"):
-        d = [x for x in la.get(name, []) if x[0] == "assign"]
-        if len(d) == 1:
-            env.vars[name] = it4.eval(d[0][1], env)
-    if "direction_increment" in env.vars:
-        ctx.equiv("R06.4", "mem2_newton[inline increments]", env.vars["direction_increment"], ref, fn_.loc(),
+    # the increments are whatever local is assigned from an expression of two wrapped one-sided differences of the directions;
+    # it is found as the local whose (fully substituted) definition mentions np.roll / np.diff of the direction parameter
+    from .fc import substitute_defs as _subst
+    inc_val = None
+    for name, defs in la.items():
+        d = [x for x in defs if x[0] == "assign"]
+        if len(d) != 1:
+            continue
+        full = _subst(fn_.node, d[0][1], set())
+        txt = ast.unparse(full)
+        if txt.count("directions_radians") >= 3 and ("np.roll" in txt or "np.diff" in txt) and "/ 2" in txt.replace("2.0", "2"):
+            inc_val = it4.eval(full, env)
+    if inc_val is not None:
+        ctx.equiv("R06.4", "mem2_newton[inline increments]", inc_val, ref, fn_.loc(),
                   "the inline computation is the same midpoint rule (sibling of get_direction_increment)", norm=norm_inc, interp=it4)
     else:
         ctx.unsure("R06.4", "mem2_newton[inline increments]", "inline increment computation not found", fn_.loc())
@@ -317,10 +348,14 @@ def run(ctx):
         env = _Env(itm, fm, fm.module)
         env.vars.update({"a1": A1, "b1": B1, "a2": A2, "b2": B2, "directions_radians": thm})
         la_ = {}
+        d_unnorm = None
         for st in fm.node.body:
             if isinstance(st, ast.Assign) and len(st.targets) == 1 and isinstance(st.targets[0], ast.Name):
                 nm = st.targets[0].id
-                if nm in ("integralApprox",):
+                sums = [c for c in ast.walk(st.value) if isinstance(c, ast.Call) and ast.unparse(c.func) in ("np.sum", "numpy.sum") and c.args]
+                if sums:
+                    # the normaliser: its summand is the un-normalised distribution, whatever the locals are called
+                    d_unnorm = T.to_term(itm.eval(sums[0].args[0], env))
                     break
                 env.vars[nm] = itm.eval(st.value, env)
                 la_[nm] = T.to_term(env.vars[nm])
@@ -332,17 +367,23 @@ def run(ctx):
                 return None
             return T.rewrite(t, fn)
 
-        need = ("Phi1", "Phi2", "numerator", "denominator", "D")
-        if not all(k in la_ for k in need):
-            ctx.unsure("R06.6", f"{fm.name}[closed form]", "Phi1/Phi2/numerator/denominator/D not found under these names", fm.loc())
+        if d_unnorm is None:
+            ctx.unsure("R06.6", f"{fm.name}[closed form]", "normalisation by a discrete sum not found", fm.loc())
             continue
-        got = {k: drop_bcast(la_[k]) for k in need}
-        mem_terms[fm.name] = got["D"]
-        checks = (("Phi1", phi1_ref), ("Phi2", phi2_ref), ("numerator", num_ref), ("denominator", den_ref), ("D", d_ref))
-        for k, ref in checks:
-            ok = same_function(got[k], ref, (A1, B1, A2, B2, thm))
-            ctx.expect(ok, "R06.6", f"{fm.name}[{k}]", f"{k} follows the Lygre-Krogstad closed form", fm.loc(),
-                       derived=T.show(got[k], 160), required=T.show(ref, 160))
+        got_d = drop_bcast(d_unnorm)
+        mem_terms[fm.name] = got_d
+        ok = same_function(got_d, d_ref, (A1, B1, A2, B2, thm))
+        detail = ""
+        if ok is False:
+            # diagnosis only: which intermediate (if the usual names are present) departs from the closed form
+            for k, ref in (("Phi1", phi1_ref), ("Phi2", phi2_ref), ("numerator", num_ref), ("denominator", den_ref)):
+                if k in la_ and same_function(drop_bcast(la_[k]), ref, (A1, B1, A2, B2, thm)) is False:
+                    detail = f"; first departure: {k} = {T.show(drop_bcast(la_[k]), 120)}"
+                    break
+        ctx.expect(ok, "R06.6", f"{fm.name}[closed form]",
+                   "the un-normalised distribution is Re[(1 - phi1 c1* - phi2 c2*) / |1 - phi1 e^{-it} - phi2 e^{-2it}|^2] / (2 pi) with "
+                   "phi1 = (c1 - c2 c1*)/(1 - |c1|^2), phi2 = c2 - c1 phi1 (Lygre-Krogstad eq. 13)" + detail, fm.loc(),
+                   derived=T.show(got_d, 200), required=T.show(d_ref, 200))
         ctx.absorb(itm)
     if len(mem_terms) == 2:
         a_, b_ = list(mem_terms.values())
@@ -353,7 +394,7 @@ def run(ctx):
     from ..sharedstate import shared_default_rule
     shared_default_rule(ctx, "R06.7", ("wavespectra.estimators",))
     ctx.require_count("R06.7", 1)
-    ctx.require_count("R06.6", 11)
+    ctx.require_count("R06.6", 3)
     ctx.require_count("R06.1", 8)
     ctx.require_count("R06.2", 20)
     ctx.require_count("R06.3", 4)
